@@ -211,6 +211,8 @@ Cause(rs) ==                                 \* rs: the set of roles sharing one
   ELSE IF "type.wrapper" \in rs THEN "oneof-wrapper-suffix"                 \* '_' suffixing ignores other wrapper types
   ELSE IF rs \subseteq {"field.Get", "field.Set", "field.Has", "field.Clear", "builder.field"}
        THEN "camelcase-suffix-collides"                                      \* <camel>_<num> equals another field's camelCase
+  ELSE IF rs \subseteq {"type.nested"}
+       THEN "nested-type-camelcase-collides"                                \* GoCamelCase is not injective (_foo, X_foo -> M_XFoo)
   ELSE "unexplained"
 WhyOf(ns, ds) == Let(ds, LAMBDA x : { [ns |-> ns, n |-> d, roles |-> RoleSeq(x, d), cause |-> Cause(Range(RoleSeq(x, d)))]
                                       : d \in Dups(NamesOf(x)) })
